@@ -130,8 +130,8 @@ def run(ctx):
     n_git = len(files)
 
     # ---- A: files rendered by the specification (C25's generator): flag, padding and path-length corners
-    gen = ctx.tlc_gen("index", "IndexWrite_Gen", consts={"Family": '"flags"', "MaxPaths": 2}, workers=6, timeout=3000)
-    gen += ctx.tlc_gen("index", "IndexWrite_Gen", consts={"Family": '"paths"', "PathVersions": "{2, 4}" if ctx.thorough else "{2}"}, workers=6, timeout=3000)
+    gen = ctx.tlc_gen("index", "IndexWrite_Gen", consts={"Family": '"flags"', "MaxPaths": 2, "AllOps": "FALSE"}, workers=6, timeout=3000)
+    gen += ctx.tlc_gen("index", "IndexWrite_Gen", consts={"Family": '"paths"', "AllOps": "FALSE", "PathVersions": "{2, 4}" if ctx.thorough else "{2}"}, workers=6, timeout=3000)
     seen = set()
     for c in gen:
         b = c25.fill(c["input"], c["input_eoie_pre"])
